@@ -107,3 +107,35 @@ def derived_inherits(ctx, rule, field, enum_suffix, what):
                    'the derived component built in %s takes its %s from %s%s' % (short, what, sorted(c.split('::')[-2] + '::' + c.split('::')[-1] for c in calls)[:4] or 'nothing',
                                                                                '' if not consts else ' and from the constant(s) %s: it no longer follows the component it derives from' % consts))
     ctx.floor(rule, 'derived component records carrying a %s' % what, n, 3)
+
+
+def expand_same_file(ctx, crate, c, home, stop=(), depth=0):
+    """A private helper that lives in the same file as the function under analysis is a piece of that function that was given a name:
+    what counts is what it calls. Accessors / predicates defined elsewhere keep their own name."""
+    from ..facts import callee as _callee, strip_generics as _sg
+    if not c.startswith(crate + '::') or depth > 2 or c in stop:
+        return {c}
+    hb = ctx.fb.bodies_of_item(crate, c)
+    if not hb or hb[0].file != home:
+        return {c}
+    out = set()
+    for x in hb:
+        for _, t in x.calls():
+            cc = _sg(_callee(t) or '')
+            if cc and cc != c:
+                out |= expand_same_file(ctx, crate, cc, home, stop, depth + 1)
+    return out
+
+
+def slice_calls_with_closures(b, sl):
+    """callees in a slice, plus the callees of closures constructed in it"""
+    from ..facts import callee as _callee, strip_generics as _sg
+    from ..flow import slice_calls as _sc
+    cs = {_sg(c) for c, _, _ in _sc(sl) if c}
+    for _, _, node in sl:
+        rv = node.get('rv')
+        if rv and rv['k'] == 'agg' and rv.get('ak') == 'closure' and rv.get('def'):
+            for x in b.fb.bodies_of_item(b.crate, b.nroot):
+                if x.id == rv['def'] or x.id.startswith(rv['def'] + '::'):
+                    cs |= {_sg(_callee(t2)) for _, t2 in x.calls() if _callee(t2)}
+    return cs
